@@ -127,16 +127,29 @@ def _c20_stray(v, rec):
 @mechanism("C03-inner-policy-iteration-cycles-between-tied-actions-at-large-magnitudes")
 def _c03_pi_cycle(v, rec):
     """LAOStar.plan_on raises AssertionError from `assert converged` at the end of ExplicitStateGraph._policy_iteration (that
-    call site, nothing else), on a problem whose optimal values are of order 1e6 or more: the strict argmax improvement step
-    flips between actions whose evaluated values differ by rounding noise (exactly tied optimal actions in most observed
-    cases, recorded as a fact; intermediate policies in the rest). Never observed below that magnitude in ~1e6 cases."""
+    call site, nothing else), on a problem in which two optimal actions of a state tie exactly (reference action values equal to
+    1e-12 relative) OR whose optimal values are of order 1e6 or more: the strict argmax improvement step flips between actions
+    whose evaluated values differ only by rounding noise."""
     f = v.get("facts", {})
     if not v["clause"].startswith("exception:LAOStar.plan_on") or f.get("exc_type") != "AssertionError":
         return False
     where = f.get("where", [])
     if not where or "_policy_iteration" not in where[-1]:
         return False
-    return float(f.get("value_magnitude", 0.0)) >= 1e6
+    return bool(f.get("exact_tie_between_optimal_actions")) or float(f.get("value_magnitude", 0.0)) >= 1e6
+
+
+@mechanism("C09-bpi-improvement-step-not-monotone-at-long-horizons")
+def _c09_long_horizon(v, rec):
+    """FSCBoundedPolicyIteration.train_on raises AssertionError from its own assert_value_improvement (innermost msdm frame)
+    on a POMDP with a discount rate of .999 or more, after an LP that ended with status 0."""
+    f = v.get("facts", {})
+    if not v["clause"].startswith("exception:FSCBoundedPolicyIteration.train_on") or f.get("exc_type") != "AssertionError":
+        return False
+    where = f.get("where", [])
+    if not where or "assert_value_improvement" not in where[-1]:
+        return False
+    return float(f.get("gamma", 0.0)) >= 0.999 and f.get("last_lp_status") == 0
 
 
 @mechanism("C09-bpi-does-not-check-the-lp-solver's-status")
